@@ -87,6 +87,8 @@ pub struct OpRec {
     pub suspend_step: u64,
     /// the task that polled this op's gate wait last (the context its registered waker resumes)
     pub last_poll_task: usize,
+    /// `stage_seq` of the caller that performed the last poll, at that moment (0 if it was not a caller)
+    pub last_poll_stage_seq: u64,
 }
 
 impl OpRec {
@@ -121,6 +123,7 @@ impl OpRec {
             has_panic: false,
             suspend_step: 0,
             last_poll_task: usize::MAX,
+            last_poll_stage_seq: 0,
         }
     }
     pub fn ended(&self) -> bool {
@@ -213,6 +216,8 @@ pub struct CallerSt {
     pub task: usize,
     pub stage: Stage,
     pub pos: usize,
+    /// counts the changes of `stage`: identifies one particular wait of this caller
+    pub stage_seq: u64,
 }
 
 #[derive(Clone, Debug)]
@@ -727,7 +732,12 @@ impl World {
     }
 
     pub fn set_stage(&self, caller: usize, stage: Stage) {
-        self.with(|i| i.callers[caller].stage = stage);
+        self.with(|i| {
+            if i.callers[caller].stage != stage {
+                i.callers[caller].stage_seq += 1;
+            }
+            i.callers[caller].stage = stage;
+        });
     }
 
     /// Fires every waker that was ever registered with the gate again (stale / spurious wake-ups)
